@@ -16,8 +16,8 @@ import (
 func coreContracts() map[string]*ZContract {
 	nonneg := func() *ZContract { return &ZContract{Ensures: []ZEnsure{{Cons: []ZC{le(zz, zr(0), 0)}}}} }
 	return map[string]*ZContract{
-		"(*core.Cursor).Pos":                 nonneg(),
-		"(*core.Line).Len":                   nonneg(),
+		"(*core.Cursor).Pos":                 {Ensures: []ZEnsure{{Cons: []ZC{le(zz, zr(0), 0), le(zr(0), zo(0), 0)}}}},
+		"(*core.Line).Len":                   {Ensures: []ZEnsure{{Cons: []ZC{le(zz, zr(0), 0), le(zr(0), zh(0), 0), le(zh(0), zr(0), 0)}}}},
 		"(*core.Line).Lines":                 nonneg(),
 		"(*history.Sources).Len":             nonneg(),
 		"unicode/utf8.RuneCountInString":     nonneg(),
@@ -26,30 +26,38 @@ func coreContracts() map[string]*ZContract {
 		"strutil.RealLength":                 nonneg(),
 		"github.com/rivo/uniseg.StringWidth": nonneg(),
 		// (*Line).checkPosRange clamps into [0, Len]; checkRange returns (bpos >= 0, epos >= -1) when valid
-		"(*core.Line).checkPosRange": nonneg(),
-		"(*core.Line).checkRange":    {Requires: []ZC{le(zz, zp(2), 1)}, Ensures: []ZEnsure{{Guard: 'T', GI: 2, Cons: []ZC{le(zz, zr(0), 0), le(zz, zr(1), 1)}}}},
+		"(*core.Line).checkPosRange": {Ensures: []ZEnsure{{Cons: []ZC{le(zz, zr(0), 0), le(zr(0), zh(0), 0)}}}},
+		"(*core.Line).checkRange": {Requires: []ZC{le(zz, zp(2), 1)}, Ensures: []ZEnsure{
+			{Guard: 'T', GI: 2, Cons: []ZC{le(zz, zr(0), 0), le(zz, zr(1), 1), le(zr(0), zh(0), 0), le(zr(1), zh(0), 0)}},
+			{Guard: 'P', GI: 1, Cons: []ZC{le(zr(0), zr(1), 0)}}}},
 		"(*core.Line).Cut":           {Requires: []ZC{le(zz, zp(2), 1)}},
 		"(*core.Line).InsertBetween": {Requires: []ZC{le(zz, zp(2), 1)}},
 		// Selection.checkRange returns (bpos >= 0, epos >= -1) when valid; Selection.Pos returns values >= -1
-		"(*core.Selection).checkRange": {Ensures: []ZEnsure{{Cons: []ZC{le(zz, zr(0), 1), le(zz, zr(1), 1)}}, {Guard: 'T', GI: 2, Cons: []ZC{le(zz, zr(0), 0), le(zz, zr(1), 1)}}}},
+		"(*core.Selection).checkRange": {Ensures: []ZEnsure{
+			{Cons: []ZC{le(zz, zr(0), 1), le(zz, zr(1), 1)}},
+			{Guard: 'T', GI: 2, Cons: []ZC{le(zz, zr(0), 0), le(zz, zr(1), 1), le(zr(0), zo(0), 0), le(zr(1), zo(0), 0)}},
+			{Guard: 'F', GI: 2, Cons: []ZC{le(zr(0), zz, -1), le(zr(1), zz, -1)}},
+			{Guard: 'P', GI: 1, Cons: []ZC{le(zr(0), zr(1), 0)}}}},
 		"(*core.Line).SelectWord":      {Ensures: []ZEnsure{{Cons: []ZC{le(zz, zr(0), 0), le(zz, zr(1), 0)}}}},
 		"(*core.Line).SelectBlankWord": {Ensures: []ZEnsure{{Cons: []ZC{le(zz, zr(0), 0), le(zz, zr(1), 0)}}}},
-		"(*core.Selection).Pos":        {Ensures: []ZEnsure{{Cons: []ZC{le(zz, zr(0), 1), le(zz, zr(1), 1)}}}},
+		"(*core.Selection).Pos":        {Ensures: []ZEnsure{{Cons: []ZC{le(zz, zr(0), 1), le(zz, zr(1), 1), le(zr(0), zo(0), 0), le(zr(1), zo(0), 0), le(zr(0), zr(1), 0)}}}},
+		// lemma (see DESIGN.md §13): a command runs after the dispatcher matched at least one key (MatchedKeys / MatchedPrefix store a non-empty slice)
+		"(*core.Keys).Caller": {Trusted: true, Ensures: []ZEnsure{{Cons: []ZC{le(zz, zm(0), -1)}}}},
 		// tokenizers return (words, index of the word under the position >= 0, offset in it)
-		"type:core.Tokenizer":              {Ensures: []ZEnsure{{Cons: []ZC{le(zz, zr(1), 0)}}}},
-		"(*core.Line).Tokenize":            {Ensures: []ZEnsure{{Cons: []ZC{le(zz, zr(1), 0)}}}},
-		"(*core.Line).TokenizeSpace":       {Ensures: []ZEnsure{{Cons: []ZC{le(zz, zr(1), 0)}}}},
-		"(*core.Line).TokenizeBlock":       {Ensures: []ZEnsure{{Cons: []ZC{le(zz, zr(1), 0)}}}},
-		"(*core.Line).Tokenize$bound":      {Ensures: []ZEnsure{{Cons: []ZC{le(zz, zr(1), 0)}}}},
-		"(*core.Line).TokenizeSpace$bound": {Ensures: []ZEnsure{{Cons: []ZC{le(zz, zr(1), 0)}}}},
-		"(*core.Line).TokenizeBlock$bound": {Ensures: []ZEnsure{{Cons: []ZC{le(zz, zr(1), 0)}}}},
+		"type:core.Tokenizer":              {Ensures: []ZEnsure{{Cons: []ZC{le(zz, zr(1), 0)}}, {Guard: 'L', GI: 0, Cons: []ZC{le(zr(1), zm(0), -1)}}}},
+		"(*core.Line).Tokenize":            {Ensures: []ZEnsure{{Cons: []ZC{le(zz, zr(1), 0)}}, {Guard: 'L', GI: 0, Cons: []ZC{le(zr(1), zm(0), -1)}}}},
+		"(*core.Line).TokenizeSpace":       {Ensures: []ZEnsure{{Cons: []ZC{le(zz, zr(1), 0)}}, {Guard: 'L', GI: 0, Cons: []ZC{le(zr(1), zm(0), -1)}}}},
+		"(*core.Line).TokenizeBlock":       {Ensures: []ZEnsure{{Cons: []ZC{le(zz, zr(1), 0)}}, {Guard: 'L', GI: 0, Cons: []ZC{le(zr(1), zm(0), -1)}}}},
+		"(*core.Line).Tokenize$bound":      {Ensures: []ZEnsure{{Cons: []ZC{le(zz, zr(1), 0)}}, {Guard: 'L', GI: 0, Cons: []ZC{le(zr(1), zm(0), -1)}}}},
+		"(*core.Line).TokenizeSpace$bound": {Ensures: []ZEnsure{{Cons: []ZC{le(zz, zr(1), 0)}}, {Guard: 'L', GI: 0, Cons: []ZC{le(zr(1), zm(0), -1)}}}},
+		"(*core.Line).TokenizeBlock$bound": {Ensures: []ZEnsure{{Cons: []ZC{le(zz, zr(1), 0)}}, {Guard: 'L', GI: 0, Cons: []ZC{le(zr(1), zm(0), -1)}}}},
 		// standard library results
-		"unicode/utf8.DecodeRuneInString":     {Ensures: []ZEnsure{{Cons: []ZC{le(zz, zr(1), 0)}}}},
-		"unicode/utf8.DecodeRune":             {Ensures: []ZEnsure{{Cons: []ZC{le(zz, zr(1), 0)}}}},
+		"unicode/utf8.DecodeRuneInString":     {Ensures: []ZEnsure{{Cons: []ZC{le(zz, zr(1), 0), le(zr(1), zl(0), 0)}}}},
+		"unicode/utf8.DecodeRune":             {Ensures: []ZEnsure{{Cons: []ZC{le(zz, zr(1), 0), le(zr(1), zl(0), 0)}}}},
 		"unicode/utf8.DecodeLastRuneInString": {Ensures: []ZEnsure{{Cons: []ZC{le(zz, zr(1), 0)}}}},
-		"(*os.File).Read":                     {Ensures: []ZEnsure{{Cons: []ZC{le(zz, zr(0), 0)}}}},
-		"invoke:io.Reader.Read":               {Ensures: []ZEnsure{{Cons: []ZC{le(zz, zr(0), 0)}}}},
-		"invoke:io.ReadCloser.Read":           {Ensures: []ZEnsure{{Cons: []ZC{le(zz, zr(0), 0)}}}},
+		"(*os.File).Read":                     {Ensures: []ZEnsure{{Cons: []ZC{le(zz, zr(0), 0), le(zr(0), zl(1), 0)}}}},
+		"invoke:io.Reader.Read":               {Ensures: []ZEnsure{{Cons: []ZC{le(zz, zr(0), 0), le(zr(0), zl(0), 0)}}}},
+		"invoke:io.ReadCloser.Read":           {Ensures: []ZEnsure{{Cons: []ZC{le(zz, zr(0), 0), le(zr(0), zl(0), 0)}}}},
 		"bytes.Index":                         {Ensures: []ZEnsure{{Cons: []ZC{le(zz, zr(0), 1)}}}},
 		"bytes.IndexByte":                     {Ensures: []ZEnsure{{Cons: []ZC{le(zz, zr(0), 1)}}}},
 	}
@@ -114,11 +122,12 @@ type fieldEnsure struct {
 	tn, fld string
 	lb      int64
 	except  []string // idempotent normalisers whose stores do not count as writes
+	ubLine  bool     // also: field <= current length of the receiver's line
 }
 
 var fieldEnsures = map[string][]fieldEnsure{
-	"(*core.Cursor).CheckAppend":  {{"core.Cursor", "pos", 0, []string{"(*core.Cursor).CheckAppend"}}, {"core.Cursor", "mark", -1, []string{"(*core.Cursor).CheckAppend"}}},
-	"(*core.Cursor).CheckCommand": {{"core.Cursor", "pos", 0, []string{"(*core.Cursor).CheckAppend"}}},
+	"(*core.Cursor).CheckAppend":  {{"core.Cursor", "pos", 0, []string{"(*core.Cursor).CheckAppend"}, true}, {"core.Cursor", "mark", -1, []string{"(*core.Cursor).CheckAppend"}, false}},
+	"(*core.Cursor).CheckCommand": {{"core.Cursor", "pos", 0, []string{"(*core.Cursor).CheckAppend"}, true}},
 }
 
 // classInvariant: an integer field that every function leaves >= lb when it
@@ -253,6 +262,11 @@ func (z *zoneEngine) stateLoadBounds(fn *ssa.Function) map[*ssa.UnOp]int64 {
 				}
 				return z.p.callMayReach(ci, ws)
 			}
+			// the upper bound against the line additionally needs the line unchanged
+			ubClass := ""
+			if sc.fe.ubLine && z.useHeap {
+				ubClass = lineClassOfObj(sc.call.Call.Args[0])
+			}
 			isSrc := func(x ssa.Instruction) bool { return x == ssa.Instruction(sc.call) }
 			killed := false
 			eachInstr(fn, func(k ssa.Instruction) {
@@ -269,6 +283,24 @@ func (z *zoneEngine) stateLoadBounds(fn *ssa.Function) map[*ssa.UnOp]int64 {
 			if !killed {
 				if old, ok := out[ld]; !ok || sc.fe.lb > old {
 					out[ld] = sc.fe.lb
+				}
+				if ubClass != "" {
+					lineKilled := false
+					eachInstr(fn, func(k ssa.Instruction) {
+						if lineKilled || !z.lineKills[k] {
+							return
+						}
+						if pathAvoiding(fn, sc.call, func(x ssa.Instruction) bool { return x == k }, isSrc) != nil &&
+							pathAvoiding(fn, k, func(x ssa.Instruction) bool { return x == ssa.Instruction(ld) }, isSrc) != nil {
+							lineKilled = true
+						}
+					})
+					if !lineKilled {
+						if z.loadUB == nil {
+							z.loadUB = map[*ssa.UnOp]string{}
+						}
+						z.loadUB[ld] = ubClass
+					}
 				}
 			}
 		}
@@ -362,14 +394,19 @@ func (z *zoneEngine) getterEqualities(fn *ssa.Function) map[*ssa.Call]*ssa.Call 
 // values returned by callbacks). One line of reason each; everything else must
 // be proved. Key = function:kind#ordinal as printed by the rule.
 var reviewedNonneg = map[string]string{
+	"(*core.Line).TokenizeBlock:postcondition#5":    "the `match == count` return follows closeToken, which appended a second element to split on that path (index 1 exists)",
+	"(*core.Line).TokenizeBlock:postcondition#7":    "same: closeToken rebuilt split with two elements when idx == cpos",
+	"(*core.Line).checkRange:postcondition#4":       "epos >= 0 here means the reordering test `epos > -1 && epos < bpos` ran with epos > -1: either it swapped (bpos < epos) or epos >= bpos already; the phis of the swap hide it from the domain",
+	"(*core.Selection).Pos:postcondition#19":        "after selectToCursor / the visual increment epos >= 0, so the second checkRange reorders: bpos <= epos",
+	"(*core.Selection).checkRange:postcondition#12": "bpos < 0 implies epos >= 0 here (both negative returned invalid above), so the swapped bpos is >= 0",
+	"(*core.Selection).checkRange:postcondition#14": "same argument on the reordering return",
+	"(*core.Selection).checkRange:postcondition#18": "the final `bpos > epos && epos != -1` swap orders them whenever epos >= 0",
 	"(*core.Keys).extractCursorPos:index#0":         "rxRcvCursorPos.Match(keys) held just above, so FindAll with the same expression returns at least one match",
 	"(*core.Line).TokenizeBlock:index#0":            "line is the copy of *l taken at entry and Len() == 0 returned: cpos is clamped into [0, Len] and decremented only when it equals Len >= 1",
 	"(*core.Line).TokenizeBlock:index#1":            "same position as index#0",
 	"(*core.Selection).Pop:slice#0":                 "guarded by `bpos == -1 || epos == -1 → return` two lines above; Selection.Pos returns values >= -1 (the named results are spilled because of the deferred Reset, which the domain does not follow)",
 	"(*core.Selection).SelectAShellWord:index#1":    "cpos comes from AdjustSurroundQuotes / SelectBlankWord (>= -1, and both -1 selects the blank word instead): cpos+1 >= 0",
 	"(*core.Selection).SelectKeyword:slice#0":       "bpos, epos are the blank-word positions the only caller (viSelectKeyword / selection cycling) obtained from SelectBlankWord on the same line (>= 0)",
-	"(*core.Selection).checkRange:postcondition#6":  "bpos < 0 implies epos >= 0 here (both negative returned invalid above), so the swapped bpos is >= 0; the phi of the clamped epos hides it from the domain",
-	"(*core.Selection).checkRange:postcondition#8":  "same argument on the reordering return",
 	"(*core.Selection).cycleSubgroup:index#0":       "kmpos >= 1 while cycling: matchKeyword sets it to 1 (or len(groups)) before any cycle, it is decremented only when > 1 (canCycleSubgroup)",
 	"(*core.Selection).cycleSubgroup:index#1":       "same: kmpos >= 1",
 	"(*core.Selection).matchKeyword:index#2":        "kpos was wrapped into [1, len(matchersNames)] above and the loop runs while done(kpos): kpos > 0",
@@ -392,6 +429,62 @@ var reviewedNonneg = map[string]string{
 	"core.closeToken:slice#2":                       "start is such a recorded index, bumped to 1 when it is 0",
 	"core.closeToken:slice#3":                       "same as slice#0",
 	"core.openToken:slice#0":                        "idx is a range index of the line, bumped to 1 when it is 0",
+}
+
+// reviewedBounds: sites whose upper bound / ordering rests on something the
+// domain cannot express. Same key format as reviewedNonneg.
+var reviewedBounds = map[string]string{
+	"(*core.Cursor).OnEmptyLine:index#2":                 "pos is compared with 0 and Len() just above; callers run it after a normaliser (CheckCommand calls CheckAppend first) or at the start of a motion, when execute's post-command check has left pos <= Len",
+	"(*core.Cursor).OnEmptyLine:index#3":                 "same: 0 < pos < Len on this path",
+	"(*core.Keys).GetCursorPos:index#2":                  "match[0] is a submatch list of rxRcvCursorPos, which has two capture groups: length 3",
+	"(*core.Keys).GetCursorPos:index#4":                  "same",
+	"(*core.Keys).ReadKey:index#2":                       "len(buf) == 0 returned just above, so the []rune of its string has at least one rune",
+	"(*core.Keys).extractCursorPos:index#0":              "rxRcvCursorPos.Match(keys) held, so FindAll returns at least one match",
+	"(*core.Line).Tokenize:index#6":                      "split starts with one element (make([]string, 1)) and is only appended to: len(split)-1 is its last index",
+	"(*core.Line).Tokenize:index#10":                     "same",
+	"(*core.Line).TokenizeSpace:index#6":                 "same",
+	"(*core.Line).TokenizeSpace:index#10":                "same",
+	"(*core.Line).TokenizeSpace:index#11":                "same",
+	"(*core.Line).TokenizeBlock:index#0":                 "cpos is clamped into [0, Len] and decremented when it equals Len >= 1: 0 <= cpos < len(line)",
+	"(*core.Line).TokenizeBlock:index#1":                 "same position",
+	"(*core.Line).TokenizeBlock:index#2":                 "idx is the range index of line",
+	"(*core.Line).TokenizeBlock:index#3":                 "reached only on `idx == cpos` after closeToken rebuilt split with two elements for that case",
+	"(*core.Selection).Pop:slice#0":                      "(bpos, epos) come from Selection.Pos, which returns -1, -1 (handled above) or 0 <= bpos <= epos <= Len; the named results are spilled because of the deferred Reset",
+	"(*core.Selection).SelectAShellWord:index#0":         "mark > 0 is tested in the same expression; mark is a position on the line (cursor position or start of a selected word)",
+	"(*core.Selection).SelectAShellWord:index#1":         "cpos < Len()-1 is tested in the same expression",
+	"(*core.Selection).SelectKeyword:slice#0":            "bpos, epos are blank-word positions the callers obtained from SelectBlankWord on the same line (epos+1 <= Len)",
+	"(*core.Selection).cycleSubgroup:index#0":            "canCycleSubgroup: kmpos < len(groups)-1 before the increment (next) or kmpos > 1 before the decrement: 1 <= kmpos <= len(groups)-1",
+	"(*core.Selection).cycleSubgroup:index#1":            "same",
+	"(*core.Selection).matchKeyword:index#1":             "guarded by 0 < kpos <= len(matchersNames) in the if just above",
+	"(*core.Selection).matchKeyword:index#2":             "kpos is wrapped into [1, len(matchersNames)] and the loop runs while done(kpos)",
+	"(*core.Selection).spacesAroundWord:index#0":         "cpos > 0 is tested in the same expression; cpos is the caller's cursor position (<= Len)",
+	"(*readline.Shell).abort:index#1":                    "index 0 of the non-empty constant string inputrc.Unescape(`\\C-C`)",
+	"(*readline.Shell).insertAutosuggestPartial:slice#0": "suggested is longer than the line, cpos is the cursor position on the line and forward is clipped to suggested.Len()-cpos-1 just above",
+	"(*readline.Shell).keywordSwitch:index#0":            "bpos != 0 is tested in the same expression; bpos is SelectWord's start on this line (an empty line gives bpos == 0, otherwise bpos <= Len-1)",
+	"(*readline.Shell).keywordSwitch:index#1":            "same",
+	"(*readline.Shell).keywordSwitch:slice#1":            "bpos, epos are adjusted by the offsets a keyword switcher returned for the selected word (0 <= obpos <= oepos <= len(selection)) and cpos in [bpos, epos) was tested above",
+	"(*readline.Shell).keywordSwitch:slice#2":            "same",
+	"(*readline.Shell).magicSpace:slice#0":               "word starts with \"!\" (non-empty), so Pop returned a real selection: 0 <= bpos < Len",
+	"(*readline.Shell).quoteLine:index#3":                "pos is the range index of *rl.line and the loop does not change the line's length",
+	"(*readline.Shell).shellBackwardKillWord:slice#1":    "the cursor is moved back from startPos onto the word that ends there and then to its first non-blank: bpos <= startPos (exercised by the triage sweep, DESIGN.md §13)",
+	"(*readline.Shell).viChangeTo:index#0":               "Selection.Surrounds() returned the two surround selections MarkSurround creates together (IsSurround branch)",
+	"(*readline.Shell).viChangeTo:index#1":               "same",
+	"(*readline.Shell).viChangeTo:index#2":               "positions of the active one-rune surround selections created on valid positions of this line",
+	"(*readline.Shell).viChangeTo:index#3":               "same",
+	"(*readline.Shell).viSubstitute:index#1":             "linewise selection marked at the cursor on a non-empty line: 1 <= epos <= Len",
+	"(*readline.Shell).viSubstitute:slice#0":             "same selection: 0 <= bpos <= epos <= Len",
+	"(*readline.Shell).viYankWholeLine:slice#0":          "same kind of selection on a non-empty buffer; epos >= bpos is enforced just above",
+	"(readline.Completions).ListSeparator:index#4":       "exported completion helper documented to take tag/separator pairs (an odd count is an application error)",
+	"readline.CompleteStyledValues:index#3":              "exported completion helper documented to take value/style pairs",
+	"readline.CompleteStyledValuesDescribed:index#3":     "exported completion helper documented to take value/description/style triples",
+	"readline.CompleteStyledValuesDescribed:index#4":     "same",
+	"readline.CompleteValuesDescribed:index#3":           "exported completion helper documented to take value/description pairs",
+	"core.CoordinatesCursor:slice#0":                     "bpos and newline[0] are consecutive newline positions of the line (bpos <= newline[0] <= Len)",
+	"core.CoordinatesCursor:slice#1":                     "bpos is the start of the cursor's line and cur.pos was normalised by CheckAppend at entry: bpos <= pos <= Len",
+	"core.closeToken:slice#0":                            "pos[count] is the index of the opener recorded earlier in the same scan: pos[count] < idx < len(line)",
+	"core.closeToken:slice#2":                            "same recorded index",
+	"core.closeToken:slice#3":                            "same",
+	"core.openToken:slice#0":                             "idx is a range index of line (bumped to 1 when 0): idx-1 < len(line)",
 }
 
 // integer fields with a lower-bound invariant (assumed at loads, proved at every store in the module)
@@ -446,7 +539,9 @@ func checkC01Nonneg(c *Ctx) {
 	for _, ci := range classInvariants {
 		chk[ci.tn+"."+ci.fld] = ci.lb
 	}
-	z := &zoneEngine{p: p, contracts: coreContracts(), fieldMinLen: map[string]int64{}, useGetters: true, fieldLB: nonnegFieldLB, fieldLBCheck: chk, entryNonneg: sortCallbackParams(p)}
+	r.Rule("C01.bounds", "K9", "beyond non-negativity: every index of the commands and editing primitives is below the length of what it indexes, and every slice has low <= high <= length — proved with heap length terms for the shared line (Line.Len() == len(*line), Cursor.Pos() <= Len, clamps), or listed in a reviewed table with the reason", 300)
+	z := &zoneEngine{p: p, contracts: coreContracts(), fieldMinLen: map[string]int64{}, useGetters: true, useHeap: true, fieldLB: nonnegFieldLB, fieldLBCheck: chk, entryNonneg: sortCallbackParams(p)}
+	seenRevB := map[string]bool{}
 	seenReviewed := map[string]bool{}
 	nProved, nReviewed := 0, 0
 	for _, f := range p.RepoFuncs {
@@ -457,6 +552,9 @@ func checkC01Nonneg(c *Ctx) {
 		}
 		if len(f.Blocks) == 0 || pk == nil || !(pk.Pkg.Path() == modPath || strings.HasSuffix(pk.Pkg.Path(), "/internal/core")) {
 			continue
+		}
+		if f.Synthetic != "" {
+			continue // wrappers and bound-method thunks: no code of their own
 		}
 		z.obls = nil
 		z.analyse(f)
@@ -499,6 +597,17 @@ func checkC01Nonneg(c *Ctx) {
 			default:
 				r.Bad("C01.nonneg", key, p.IPos(o.In), "cannot show that "+describeObl(o)+" is never negative ("+o.Detail+"): a negative index or slice bound panics and takes the application down")
 			}
+			if o.IsBound {
+				switch {
+				case o.OK:
+					r.OK("C01.bounds", key, p.IPos(o.In), "proved")
+				case reviewedBounds[key] != "":
+					seenRevB[key] = true
+					r.OK("C01.bounds", key, p.IPos(o.In), "reviewed: "+reviewedBounds[key])
+				default:
+					r.Bad("C01.bounds", key, p.IPos(o.In), "cannot show that "+describeObl(o)+" stays inside what it indexes ("+o.Detail+"): an index at or past the length, or an inverted slice range, panics and takes the application down")
+				}
+			}
 		}
 		if any {
 			r.Fn(fnName(f))
@@ -507,6 +616,11 @@ func checkC01Nonneg(c *Ctx) {
 	for k := range reviewedNonneg {
 		if !seenReviewed[k] {
 			r.Notes = append(r.Notes, "reviewed non-negativity entry no longer matches a site that needs it: "+k)
+		}
+	}
+	for k := range reviewedBounds {
+		if !seenRevB[k] {
+			r.Notes = append(r.Notes, "reviewed bounds entry no longer matches a site that needs it: "+k)
 		}
 	}
 	r.Extra["nonneg_proved"] = nProved
